@@ -64,7 +64,12 @@ META = {
         "generic_name_roundtrip (the quoted operation name of the generic form is read back as the operation of "
         "exactly that name, registered iff the name is), lookup_eq_generic_iff (when the dialect-stack lookup of the "
         "custom form agrees); tied to the real print_string at every indentation, to UnregisteredAttr printing, to "
-        "get_optional_op over all stacks and to the parser's lookup below operations of other dialects."
+        "get_optional_op over all stacks and to the parser's lookup below operations of other dialects. "
+        "Names written bare or quoted (Printer.print_identifier_or_string_literal = isBare, the lexer's bare "
+        "identifier = lexBare): lexBare_whole_iff (an unquoted name is read back as exactly that name iff it passes "
+        "the printer's test), lexBare_append (a bare name followed by anything that does not continue an identifier "
+        "is read back as that name), isBare_no_space (no bare name holds a line break or blank), "
+        "trailing_newline_counterexample."
     ),
     "technique": "Lean 4 proofs on the name-allocation model + exhaustive/random differential correspondence + direct round-trip oracle over generated programs, the .mlir corpus and pass outputs",
     "level_note": (
@@ -113,6 +118,16 @@ META = {
         "builtin.module regions, types also as result and block-argument types, every unregistered operation name of "
         "the name catalogue below every kind of parent, every attribute-dictionary key of the key catalogue; plus "
         "random payload lists from the C06 generator; every such module is non-trivial. "
+        "idents: every string over 22 character-class representatives (identifier start, digit, `_ $ .`, `-`, `#`, "
+        "blank, \\n \\r \\t \\v \\f NUL US, quote, backslash, non-ASCII letter/digit, U+2028, U+0085) up to length 3 "
+        "(4 in the thorough tier), eight identifiers with every code point below U+0100 and eleven other Unicode "
+        "characters before / after / inside them, random longer mixtures: printed by "
+        "Printer.print_identifier_or_string_literal and read where the parser expects an identifier or string literal "
+        "(must give back the name and nothing else; bare/quoted vs Lean isBare; non-trivial = printed unquoted, or "
+        "length ≤ 2); every name printed unquoted (length ≤ 3 or around `key`), every name of length ≤ 2 and the "
+        "edge family around `key` also in whole modules (family attrs): attribute key with and without value and "
+        "property key of an unregistered operation, attribute key of test.op, DictionaryAttr key, SymbolRefAttr root "
+        "and nested component. "
         "verbatim: every text over {a, line break, space} up to length 4, the multi-line bodies and random texts × "
         "indentation 0/1/3 (non-trivial = has a line break and indentation > 0); every name of the name catalogue × "
         "every dialect stack over {builtin, test, func, u} up to length 2 (non-trivial = some enclosing dialect has "
@@ -124,7 +139,7 @@ META = {
         "hand-written Lean model XdslModel/Names.lean (fixed printer/parser name logic), tied by correspondence",
         "hand-written Lean model XdslModel/Skeleton.lean (generic-form printer/parser skeleton), tied by correspondence; serialiser harness/props/c04_sk.py",
         "canonical IR serialiser + round-trip oracle harness/props/c04_ir.py",
-        "hand-written Lean model XdslModel/Verbatim.lean (print_string indentation, operation-name lookup), tied by correspondence",
+        "hand-written Lean model XdslModel/Verbatim.lean (print_string indentation, operation-name lookup, bare-identifier test), tied by correspondence",
         "payload recipes, constructors and attribute-level classification shared with C06 (harness/props/c06_values.py, c06.classify)",
     ],
     "budget": {"quick": 110, "thorough": 1150},
@@ -642,6 +657,175 @@ def run_unreg(ctx: core.Ctx, n_random: int, str_len: int, chunk: int = 40) -> No
     ctx.sample({"family": "unreg", "text": I.print_generic(U.build(U.spec_of_bodies(['"a\\"]", {k = "v\\")"}'], False)))})
 
 
+# ---------------------------------------------------------------------------------------------
+# names printed bare or quoted (attribute / property keys, DictionaryAttr keys, symbol names)
+# ---------------------------------------------------------------------------------------------
+
+# one representative per class of character the bare/quoted decision and the lexer can tell apart: identifier
+# start, digit, the three punctuation suffix characters, near misses (`-`, `#`), blanks and every line-break-like
+# control (Python's `$`, `\s`, str.splitlines and str.isspace each have their own idea of those), NUL, quote,
+# backslash, non-ASCII letter / digit (Unicode `\w`, str.isalpha), Unicode line separators
+IDENT_ALPHA = ["a", "Z", "0", "_", "$", ".", "-", " ", "\n", "\r", "\t", "\x0b", "\x0c", "\x00", "\x1f", '"', "\\",
+               "é", "²", "\u2028", "\x85", "#"]
+IDENT_BASES = ["key", "sym_name", "_", "x.y$z", "A0", "i32", "true", "loc"]
+IDENT_EDGE = [chr(c) for c in list(range(0, 0x100)) + [0x17F, 0x212A, 0x660, 0xFF10, 0xFF21, 0x2028, 0x2029, 0x3000,
+                                                      0xFEFF, 0x200B, 0x1F600]]
+
+
+def ident_names(rng, max_len: int, n_random: int) -> list[str]:
+    """every string over IDENT_ALPHA up to `max_len`; every identifier of IDENT_BASES with every character of
+    IDENT_EDGE before it, after it and inside it; random longer mixtures"""
+    out = ["".join(t) for n in range(0, max_len + 1) for t in itertools.product(IDENT_ALPHA, repeat=n)]
+    for b in IDENT_BASES:
+        for c in IDENT_EDGE:
+            out += [b + c, c + b, b + c + b]
+    for _ in range(n_random):
+        out.append("".join(rng.choice(IDENT_ALPHA if rng.random() < 0.8 else IDENT_EDGE) for _ in range(rng.randint(4, 9))))
+    return list(dict.fromkeys(out))
+
+
+def ident_print(name: str) -> str:
+    from io import StringIO
+
+    from xdsl.printer import Printer
+
+    io = StringIO()
+    Printer(stream=io).print_identifier_or_string_literal(name)
+    return io.getvalue()
+
+
+def ident_readback(text: str) -> str:
+    """what the parser reads where an identifier-or-string-literal is expected, as a protocol string:
+    `name <cps>` (the whole text was consumed), `name <cps> rest` (something is left), `none`, `raise <Exc>`"""
+    from xdsl.context import Context
+    from xdsl.parser import Parser
+    from xdsl.utils.mlir_lexer import MLIRTokenKind
+
+    try:
+        p = Parser(Context(), text)
+        got = p.parse_optional_identifier_or_str_literal()
+        if got is None:
+            return "none"
+        return "name " + _cps(got) + ("" if p._current_token.kind == MLIRTokenKind.EOF else " rest")  # noqa: SLF001
+    except Exception as e:  # noqa: BLE001
+        return "raise " + core.exc_name(e)
+
+
+def ident_survives(name: str) -> bool:
+    try:
+        return ident_readback(ident_print(name)) == "name " + _cps(name)
+    except Exception:  # noqa: BLE001
+        return False
+
+
+def recipe_names(r: Any) -> list[str]:
+    """the names inside a payload recipe that go through print_identifier_or_string_literal"""
+    out: list[str] = []
+    if isinstance(r, list) and r:
+        if r[0] == "symref":
+            out += [bytes.fromhex(h).decode("utf-8", "surrogatepass") for h in r[1]]
+        elif r[0] == "dict":
+            for k, v in r[1]:
+                out.append(bytes.fromhex(k).decode("utf-8", "surrogatepass"))
+                out += recipe_names(v)
+        else:
+            for x in r[1:]:
+                if isinstance(x, list):
+                    out += recipe_names(x)
+    return out
+
+
+def spec_names(spec: dict[str, Any]) -> list[str]:
+    out: list[str] = []
+    for o, _, _ in A._walk(spec["ops"]):  # noqa: SLF001
+        for field in ("attrs", "props"):
+            for k, r in o.get(field, []):
+                out.append(k)
+                out += recipe_names(r)
+    return out
+
+
+IDENT_SITE = "xdsl.printer.Printer.print_identifier_or_string_literal"
+IDENT_SIG = "name printed as identifier-or-string-literal is read back as a different name"
+
+
+def run_idents(ctx: core.Ctx, max_len: int, n_random: int) -> list[str]:
+    """Printer.print_identifier_or_string_literal on its own: the text written for a name, read where the parser
+    expects an identifier or a string literal, must give back exactly that name and nothing else (direct: this is
+    the property for the keys and symbol names of a module); bare/quoted decision vs the Lean model `isBare`.
+    Returns the names the printer writes UNQUOTED (they are then placed in whole modules by `run_attrs`)."""
+    names = ident_names(ctx.rng, max_len, n_random)
+    lines: list[str] = []
+    impl: list[str] = []
+    bare: list[str] = []
+    failed = 0
+    for name in names:
+        ctx.ev()
+        try:
+            text = ident_print(name)
+        except Exception as e:  # noqa: BLE001
+            text = None
+            got = "print-raise " + core.exc_name(e)
+        else:
+            got = ident_readback(text)
+            lines.append("bare " + _cps(name))
+            impl.append("bare" if text == name else "quoted")
+            if text == name:
+                bare.append(name)
+                ctx.nt(("idents.bare", name))
+            elif len(name) <= 2:
+                ctx.nt(("idents.quoted", name))
+        want = "name " + _cps(name)
+        if got != want:
+            failed += 1
+            if failed <= 3:  # (enumeration order: the shortest names come first)
+                # the failing input shown is a module carrying the name as an attribute key, when that fails too
+                case: dict[str, Any] = {"family": "idents", "name": _cps(name)}
+                more = ""
+                spec = {"ops": [{"name": "u.op", "attrs": [[name, ["int", "i", 32, 1]]]}]}
+                try:
+                    m = A.build(spec)
+                    m.verify()
+                    rt = I.roundtrip(m)
+                    if not rt.ok:
+                        case = {"family": "attrs", "spec": spec}
+                        more = f"; the module with this attribute key does not round-trip ({rt.stage}: {rt.detail[:300]})"
+                except Exception:  # noqa: BLE001
+                    pass
+                ctx.fail(IDENT_SITE, IDENT_SIG, case,
+                         f"the name {name!r} is written as {text!r}; the parser reads that as {got!r}: a key / symbol name "
+                         "of a module changes on print → parse" + more, got, want)
+    ctx.count("idents.names", len(names))
+    ctx.count("idents.printed_bare", len(bare))
+    if failed:
+        ctx.count("idents.fail", failed)
+    model = ctx.model("verbatim", lines)
+    i = core.diff_streams(impl, model)
+    if i is not None:
+        ctx.mismatch("correspondence:C04/verbatim", {"family": "idents", "name": lines[i].split()[1], "line": lines[i]},
+                     impl[i], model[i],
+                     "Printer.print_identifier_or_string_literal (bare or quoted) and the Lean model `isBare` disagree")
+    ctx.sample({"family": "idents", "line": "bare " + _cps("k\n"), "impl": "quoted"})
+    return bare
+
+
+def ident_specs(names: list[str], chunk: int = 40) -> list[dict[str, Any]]:
+    """the names in every place of the generic form that goes through print_identifier_or_string_literal:
+    attribute-dictionary key (before `,`/`}` and before ` = `) and property key of an unregistered operation,
+    attribute key of a registered one, DictionaryAttr key, SymbolRefAttr root and nested component"""
+    specs = []
+    hx = A.hx
+    for k in range(0, len(names), chunk):
+        part = names[k:k + chunk]
+        refs = [n for n in part if A.constructible(["symref", [hx(n), hx(n)]])]
+        specs.append({"ops": [
+            {"name": "u.op", "attrs": [[n, ["unit"]] for n in part], "props": [[n, ["int", "i", 32, 1]] for n in part]},
+            {"name": "test.op", "attrs": [[n, ["str", hx(n)]] for n in part]},
+            {"name": "u.op", "attrs": [["d", ["dict", [[hx(n), ["unit"] if i % 2 else ["int", "i", 1, 0]] for i, n in enumerate(part)]]],
+                                       ["r", ["array", [["symref", [hx(n), hx(n)]] for n in refs]]]]}]})
+    return specs
+
+
 def classify_payload(r: list, res: dict[str, Any]) -> tuple[str, str]:
     """(call_site, signature) for a module that fails because of ONE builtin payload which does not
     survive print → parse on its own either: the classification of the literal layer (C06), so that
@@ -654,7 +838,7 @@ def classify_payload(r: list, res: dict[str, Any]) -> tuple[str, str]:
     return c06.classify(r, res)
 
 
-def run_attrs(ctx: core.Ctx, n_random: int, sk_stride: int = 1) -> None:
+def run_attrs(ctx: core.Ctx, n_random: int, sk_stride: int = 1, bare_names: list[str] | None = None) -> None:
     """builtin attribute / type payloads from the boundary-value catalogue and from the C06 generator, on
     registered and unregistered operations of several names and nesting depths (see c04_attrs.py)"""
     from props import c06
@@ -703,6 +887,15 @@ def run_attrs(ctx: core.Ctx, n_random: int, sk_stride: int = 1) -> None:
                 break
         ctx.count(f"attrs.fail.{best_rt.stage}")
         case = {"family": "attrs", "spec": best}
+        lost = [n for n in spec_names(best) if not ident_survives(n)]
+        if lost:
+            # a key / symbol name of the shrunk module does not survive print → read on its own
+            ctx.fail(IDENT_SITE, IDENT_SIG, case,
+                     f"the name {lost[0]!r} is written as {ident_print(lost[0])!r}, which the parser reads as "
+                     f"{ident_readback(ident_print(lost[0]))!r}; the module carrying it does not round-trip "
+                     f"({best_rt.stage}: {best_rt.detail[:300]})",
+                     {"stage": best_rt.stage, "text": best_rt.text1[:1500], "text2": best_rt.text2[:1500]}, None)
+            return
         r = A.single_recipe(best)
         if r is not None:
             res = c06.roundtrip(r)
@@ -730,6 +923,16 @@ def run_attrs(ctx: core.Ctx, n_random: int, sk_stride: int = 1) -> None:
     ctx.count("attrs.catalogue_payloads", len(A.catalogue_attrs()) + len(A.catalogue_types()))
     for k, spec in enumerate(specs):
         one(spec, ("catalogue", k))
+    # names: every name the printer writes unquoted, every short name, the edge family around `key` (see run_idents)
+    short = [n for n in ident_names(ctx.rng, 2, 0) if len(n) <= 2 or n.startswith("key") or n.endswith("key")]
+    # (of the edge family only the instances around `key` are placed in modules: the other bases differ from them
+    # by the identifier part alone, which `run_idents` has checked directly)
+    inames = list(dict.fromkeys([n for n in bare_names or [] if len(n) <= 3 or "key" in n] + short))
+    ctx.count("attrs.ident_names", len(inames))
+    for k, spec in enumerate(ident_specs(inames)):
+        if ctx.time_left() < 20:
+            break
+        one(spec, ("idents", k))
     gen = V.Gen(ctx.rng, V.FLOAT_TYPES_MAIN + V.FLOAT_TYPES_MAIN + V.FLOAT_TYPES_SMALL)
     for k in range(n_random):
         if ctx.time_left() < 20:
@@ -981,7 +1184,9 @@ def run(ctx: core.Ctx) -> None:
         timed("accept", run_accept, ctx, 300)
         timed("corner", run_corner, ctx, mut, 25)
         timed("unreg", run_unreg, ctx, 400, 3)
-        timed("attrs", run_attrs, ctx, 250, sk_stride=2)
+        bare: list[str] = []
+        timed("idents", lambda: bare.extend(run_idents(ctx, 3, 300)))
+        timed("attrs", run_attrs, ctx, 250, sk_stride=2, bare_names=bare)
         timed("verbatim", run_verbatim, ctx, 100)
         timed("names", run_names, ctx, val_len=4, ext_len=2, blk_len=3, blk_ext_len=2, scoped_len=4, sk_stride=3)
         timed("random", run_random, ctx, 500, mut, 0.15, 8)
@@ -992,7 +1197,9 @@ def run(ctx: core.Ctx) -> None:
         timed("accept", run_accept, ctx, 5000)
         timed("corner", run_corner, ctx, mut, 400)
         timed("unreg", run_unreg, ctx, 3000, 4)
-        timed("attrs", run_attrs, ctx, 6000)
+        bare = []
+        timed("idents", lambda: bare.extend(run_idents(ctx, 4, 20000)))
+        timed("attrs", run_attrs, ctx, 6000, bare_names=bare)
         timed("verbatim", run_verbatim, ctx, 3000)
         timed("names", run_names, ctx, val_len=5, ext_len=3, blk_len=4, blk_ext_len=3, scoped_len=5)
         timed("random", run_random, ctx, 8000, mut, 0.2, 20)
@@ -1106,6 +1313,13 @@ def replay(ctx: core.Ctx, body: dict) -> int:
         print("raw:", repr(raw), "implementation:", impl, "model:", model)
     elif fam == "verbatim":
         return replay_verbatim(ctx, case)
+    elif fam == "idents":
+        name = "".join(chr(int(c)) for c in case["name"].split(",")) if case["name"] != "-" else ""
+        text = ident_print(name)
+        got = ident_readback(text)
+        print("name:", repr(name), "| written:", repr(text), "| read back:", got, "| model:",
+              ctx.model("verbatim", ["bare " + _cps(name)])[0])
+        bad = got != "name " + _cps(name)
     elif fam in ("corpus", "pass", "corner", "unreg", "attrs"):
         text = "" if fam in ("unreg", "attrs") else case["text"] if fam == "corner" else (core.REPO / case["file"]).read_text().split("// -----")[case["chunk"]]
         if fam in ("unreg", "attrs"):
